@@ -21,6 +21,7 @@ from harness import fieldgen as G
 from harness import structgen as S
 from harness import gen as GEN
 from harness import c03ops as X
+from harness.genmods import wrapbodies as WB
 
 ADDR = re.compile(r"0x[0-9a-fA-F]+")
 KIND_ID = {"list": 0, "deque": 1, "dict": 2}
@@ -818,8 +819,8 @@ def evaluate(histories, ctx, tag="c03", per=40):
 
 def table_status():
     """Which entries of the CURRENT generated tables are not safe, as Coq computes it."""
-    body = ("Eval vm_compute in (unsafe_idx list_mutators).\nEval vm_compute in (unsafe_idx deque_mutators).\n"
-            "Eval vm_compute in (unsafe_idx dict_mutators).\n")
+    body = ("Eval vm_compute in (unsafe_idx (table_of 0%N)).\nEval vm_compute in (unsafe_idx (table_of 1%N)).\n"
+            "Eval vm_compute in (unsafe_idx (table_of 2%N)).\n")
     (rc, so, se), = core.eval_cases([body], "c03tbl", HEADER)
     vals = core.parse_eval(so)
     if rc != 0 or len(vals) != 3:
@@ -1288,7 +1289,7 @@ def replay(obj):
         print(json.dumps({k: obj[k] for k in obj if k != "python"}, indent=1, default=str)[:3000])
         print("this replay names a broken obligation, not a concrete input")
         return 2
-    tables = GEN.tables()
+    tables = WB.strict_tables()
     ctx = S.Context()
     ctx.tables = tables
     for c in obj.get("extra_classes", []):
@@ -1339,7 +1340,9 @@ def replay(obj):
 def run(rep, tier):
     rnd = random.Random(core.seed() * 1000003 + 3)
     proofs_ok, model_ok = core.standard_proof_obligations(rep, "C03", ["theories/Check/C03chk.vo"])
-    tables = GEN.tables()
+    # Gen/Tables.v (which mutators exist / are overridden) refined by the classification of the translated method
+    # bodies (Gen/WrapBodies.v); Coq computes the same refinement (Check/C03chk.v table_of) and must agree
+    tables = WB.strict_tables()
     nclasses, per_class, nops = (110, 6, 8) if tier == "quick" else (220, 10, 40)
     rep.assumptions += [
         "re.match is an oracle (Section variable), instantiated per case by a table filled from the real re module",
@@ -1382,6 +1385,19 @@ def run(rep, tier):
         _t[0] = now
     lap("proofs+tables")
 
+    # ---- directed streams that do not depend on the tables: equal-but-differently-typed values through every entry
+    # point; calls on which the base type's own method is not failure-atomic
+    for h in directed_lookalike(ctx, tables, rep):
+        all_histories.append(("directed:lookalike", h))
+    lap("directed:lookalike")
+    for h in directed_nonatomic(ctx, tables, rep):
+        all_histories.append(("directed:nonatomic-base", h))
+    lap("directed:nonatomic-base")
+    by_entry = {}
+    for _, h in all_histories:
+        if h.py_findings and h.steps and h.steps[0]["op"]["op"] == "call":
+            by_entry.setdefault((h.steps[0]["op"]["kind"], h.steps[0]["op"]["method"]), h)
+
     # ---- directed: every table entry (unsafe ones must yield a concrete failing input)
     for kind in ("list", "deque", "dict"):
         for m, s in tables[kind]:
@@ -1391,10 +1407,10 @@ def run(rep, tier):
             safe = shape == "CopyMutateReassign"
             if h is not None:
                 all_histories.append(("directed:table-entry", h))
-            elif not safe:
+            elif not safe and (kind, m) not in by_entry:
                 rep.broken("table-entry:%s.%s" % (kind, m),
                            "the generated table classifies %s.%s as %s (not validated/atomic by construction) but no "
-                           "input of the witness family makes the real wrapper misbehave: the override is in a form the "
+                           "input of the witness families makes the real wrapper misbehave: the override is in a form the "
                            "translator does not recognise" % (kind, m, shape), {"kind": kind, "method": m, "shape": shape})
     lap("directed:table-entry")
     for name, h in directed_hooks(ctx, tables):
@@ -1405,12 +1421,6 @@ def run(rep, tier):
     for h in directed_nested(ctx, tables, rep):
         all_histories.append(("directed:nested", h))
     lap("directed:hooks+ext+nested")
-    for h in directed_lookalike(ctx, tables, rep):
-        all_histories.append(("directed:lookalike", h))
-    lap("directed:lookalike")
-    for h in directed_nonatomic(ctx, tables, rep):
-        all_histories.append(("directed:nonatomic-base", h))
-    lap("directed:nonatomic-base")
 
     # ---- random histories
     made = 0
@@ -1509,17 +1519,20 @@ def run(rep, tier):
             nsteps, len(hs), len(mism)))
         rep.obligation("theorem-instance:C03_history-on-observed", not r["contradicted"],
                        "%d histories satisfy the hypotheses; %d contradict the conclusion" % (len(r["hyps"]), len(r["contradicted"])))
-        if mism:
-            hi = sorted(mism)[0]
-            h, k = hs[hi], mism[hi]
+        # a disagreement on a step where a clause of C03 fails is reported as that finding (concrete input);
+        # what remains is a disagreement without a failing clause
+        unexplained = {hi: k for hi, k in mism.items() if not any(j == k for j, _, _ in hs[hi].py_findings)}
+        if unexplained:
+            hi = sorted(unexplained)[0]
+            h, k = hs[hi], unexplained[hi]
             o = replay_obj(h, k, ctx)
-            o["model_vs_impl"] = ("the model (Struct/Instance.v mstep, shapes from Gen/Tables.v) predicts a different "
-                                  "state/outcome for step %d: %s; observed %s, post-state %s" % (
+            o["model_vs_impl"] = ("the model (Struct/Instance.v mstep, shapes from Gen/Tables.v refined by Gen/WrapBodies.v) "
+                                  "predicts a different state/outcome for step %d: %s; observed %s, post-state %s" % (
                                       k, op_src(h.steps[k]["op"]), h.steps[k]["out"],
                                       "unchanged" if h.steps[k]["post"] is None else "changed"))
             rep.broken("correspondence:mstep",
                        "model and typedpy differ on %d histories (first: %s); no clause of C03 fails on that step" % (
-                           len(mism), op_src(h.steps[k]["op"])), o)
+                           len(unexplained), op_src(h.steps[k]["op"])), o)
         if r["contradicted"]:
             hi = r["contradicted"][0]
             rep.broken("theorem-instance:C03_history", "hypotheses of C03_history hold, the model agrees with the "
